@@ -1,9 +1,13 @@
 #!/bin/bash
-# usage: mut.sh <file-in-repo> <python-expr-old> <python-expr-new> <check ids...>
-# applies a one-off textual mutation to /repo, runs the checks, and reverts. For monitor validation only.
+# usage: mut.sh <file-in-repo> <old text> <new text> <check ids...>
+# applies a one-off textual mutation to a scratch worktree of /repo (never to /repo itself), runs the checks
+# against it (VERIF_REPO) and removes the mutation again. For monitor validation only.
 f=$1; old=$2; new=$3; shift 3
-cd /repo || exit 1
-if ! git diff --quiet; then echo "repo dirty"; exit 1; fi
+WT=/tmp/mutwt
+if [ ! -d $WT ]; then git -C /repo worktree add -q --detach $WT HEAD || exit 1; fi
+cd $WT || exit 1
+git checkout -q --detach $(git -C /repo rev-parse HEAD) 2>/dev/null
+git checkout -q -- . 
 python3 - "$f" "$old" "$new" <<'PY'
 import sys
 p,old,new=sys.argv[1:4]
@@ -13,10 +17,10 @@ s=s.replace(old,new,1)
 open(p,'w').write(s)
 PY
 [ $? -eq 0 ] || exit 1
-GOFLAGS=-mod=mod GOPROXY=off GOSUMDB=off go build ./... || { git checkout -- .; echo "MUTANT DOES NOT BUILD"; exit 1; }
+GOFLAGS=-mod=mod GOPROXY=off GOSUMDB=off go build ./... || { git checkout -q -- .; echo "MUTANT DOES NOT BUILD"; exit 1; }
 for id in "$@"; do
-  out=$(cd /verif && ./check $id 2>&1)
-  echo "== $id: $(echo "$out" | grep -c '^VIOLATION') violation lines; $(echo "$out" | grep -E '^(HELD|INCONCLUSIVE)' | head -1)"
-  echo "$out" | grep -A1 '^VIOLATION' | grep 'what:' | head -4
+  out=$(cd /verif && VERIF_REPO=$WT ./check $id 2>&1)
+  echo "== $id: $(echo "$out" | grep -a -c '^VIOLATION') violation lines; $(echo "$out" | grep -a -E '^(HELD|INCONCLUSIVE)' | head -1)"
+  echo "$out" | grep -a -A1 '^VIOLATION' | grep -a 'what:' | head -4
 done
-git checkout -- .
+git checkout -q -- .
